@@ -63,6 +63,12 @@ def gen_cases(tier, seed):
             for cname in ("DrillholeGroup", "IntegratorDrillholeGroup"):
                 for v in (2.0, 2.1):
                     cases.append({"kind": "drill", "cls": cname, "target": t, "version": v, "rep": rep})
+        # linked survey pairs (receivers / transmitters, receivers / base stations, potential / current electrodes)
+        from . import c20
+
+        for pi, pair in enumerate(c20.discover_pairs()):
+            for side in ("rx", "tx"):
+                cases.append({"kind": "pair", "pair": list(pair), "side": side, "target": TARGETS[(pi + rep + (side == "tx")) % 3], "direction": ["from-receivers", "from-partner"][(pi + rep) % 2], "children": True, "rep": rep})
         for i in range(6):
             cases.append({"kind": "data", "dkind": gen.DATA_KINDS[(i + rep) % len(gen.DATA_KINDS)], "target": ["same-parent", "other-object"][i % 2], "rep": rep})
     return cases
@@ -165,6 +171,12 @@ def compare_copy(rec, src, new, where, cls, same_ws, with_children, drop_meta=Fa
             rec.fail("C12.subtree", op=where, cls=cls, attr=type(c).__name__, detail=f"child {c.name!r} ({type(c).__name__}) has no counterpart in the copy")
             continue
         used.add(id(m[0]))
+        if (c.name == "A-B Cell ID" and "Electrode" in cls) or (c.name == "Transmitter ID" and "LargeLoop" in cls):
+            # a copied DC survey keeps only the current cells its dipoles use and renumbers the link data accordingly, a copied
+            # large-loop survey re-creates its transmitter-id data (documented re-indexing): consistency is C20's subject, not an equality
+            rec.see("dc-link-data-not-compared")
+            mapping[str(c.uid)] = str(m[0].uid)
+            continue
         mapping.update(compare_copy(rec, c, m[0], where, cls, same_ws, True, drop_meta))
     # property groups: same names/types, members are the *copied* children, in the same order
     spg = {pg.name: pg for pg in (getattr(src, "property_groups", None) or [])}
@@ -357,6 +369,8 @@ def run_case(case, rec):
             run_group(case, rec, rng, scene)
         elif kind == "drill":
             run_drill(case, rec, rng, scene)
+        elif kind == "pair":
+            run_pair(case, rec, rng, scene)
         else:
             run_data(case, rec, rng, scene)
     finally:
@@ -383,11 +397,55 @@ def run_object(case, rec, rng, scene):
         src = scene.ws.get_entity(uid)[0]
         rec.see("source-reloaded")
         where += ":reloaded"
+    if case["target"] == "other-workspace" and case["children"] and made and (case.get("rep", 0) + len(cname)) % 2 == 0:
+        # one grouped child already travelled on its own: its identifier is taken in the target, so the copy of the whole
+        # object must renumber it there -- and must still leave the source file alone
+        grouped = [d for _, d in made if any(d.uid in (pg.properties or []) for pg in (src.property_groups or []))]
+        if grouped:
+            child = grouped[0]
+            try:
+                host = gen.build_object(scene.ws2, cname if cname in gen.ALL_OBJECTS else "Points", rng=random.Random(case["seed"]), name="host in target", base=100)
+                child.copy(parent=host)
+                rec.see("child-uid-taken-in-target")
+                where += ":child-precopied"
+            except Exception as exc:  # noqa: BLE001
+                from ..core import exc_origin
+
+                if not exc_origin(exc)[0]:
+                    raise
+                rec.see("precopy-refused:" + type(exc).__name__)
     new = do_copy(rec, scene, src, case, where)
     rec.see("classes-covered") if case["target"] == "same-parent" and case["children"] else None
     rec.nontrivial = new is not None and len(made) >= 1
     rec.shape = ["object", cname, case["target"], case["children"], case.get("clear_cache"), sorted({type(d).__name__ for _, d in made})]
     rec.sample = {"class": cname, "target": case["target"], "children": case["children"], "data": [d.name for _, d in made][:6]}
+
+
+def run_pair(case, rec, rng, scene):
+    """Copy one side of a linked survey pair: the copy brings its own partner, and the source pair (public view and file,
+    including both metadata blocks) stays exactly as it was."""
+    from . import c20
+
+    pair = tuple(case["pair"])
+    rx, tx, extra = c20.build_pair(scene.ws, pair, rng, parent=scene.home)
+    c20.link(pair, rx, tx, case["direction"], extra)
+    src = rx if case["side"] == "rx" else tx
+    populate(src, rng, rec)
+    where = f"copy-linked:{case['target']}:{case['side']}"
+    if case.get("rep", 0) % 2 == 1 or rng.random() < 0.4:
+        uid = src.uid
+        del rx, tx
+        scene.ws.close()
+        scene.ws.open()
+        scene.home = scene.ws.get_entity(scene.home.uid)[0]
+        scene.other = scene.ws.get_entity(scene.other.uid)[0]
+        src = scene.ws.get_entity(uid)[0]
+        where += ":reloaded"
+    rec.see("linked-pair-copies")
+    new = do_copy(rec, scene, src, case, where)
+    rec.nontrivial = new is not None
+    rec.shape = ["pair", pair[0], case["side"], case["target"], case["direction"]]
+    rec.sample = {"pair": pair[0], "side": case["side"], "target": case["target"]}
 
 
 def run_group(case, rec, rng, scene):
